@@ -226,6 +226,137 @@ def tensor_cases(report):
             report.violation(nm_, 'differs from per-component scalar operator', report.write_replay(nm_, {}))
 
 
+def history_cases(report, tier, workers):
+    """The operator is a function of the samples it is handed *now*: on one FiniteDifference instance
+    (a) differentiate an array, overwrite the same array object in place with new samples, differentiate again;
+    (b) differentiate array A, then a different array B of the same shape; (c) d3x(A) then d3y(A)/d3z(A).
+    Every second result must be the documented stencil of the *current* samples (no state kept between calls)."""
+    orders = (4,) if tier == 'quick' else (2, 4, 6, 8)
+    jobs, cases = [], []
+    for order in orders:
+        for boundary in BOUNDARIES:
+            N = max(min_size(order, boundary), 2) + 1
+            for axis in range(3):
+                shape = shape_for(axis, N)
+                for hist in ('in-place update', 'other array', 'other axis first'):
+                    fd = make_fd(shape, order, boundary)
+                    ops = [fd.d3x, fd.d3y, fd.d3z]
+                    idsym = [fd.inverse_dx, fd.inverse_dy, fd.inverse_dz][axis]
+                    f = samples(shape, prefix='f')
+                    try:
+                        if hist == 'in-place update':
+                            ops[axis](f)
+                            g = samples(shape, prefix='g')
+                            f[...] = g
+                            got, cur = ops[axis](f), f
+                        elif hist == 'other array':
+                            ops[axis](f)
+                            cur = samples(shape, prefix='g')
+                            got = ops[axis](cur)
+                        else:
+                            ops[(axis + 1) % 3](f) if f.shape[(axis + 1) % 3] >= min_size(order, boundary) else None
+                            got, cur = ops[axis](f), f
+                    except (IndexError, ValueError) as e:
+                        nm = f"history[{hist}] order{order}/{boundary}/axis{'xyz'[axis]}"
+                        report.record(nm, 'sat', group='two-call histories', kind='exception')
+                        report.violation(nm, f'supported size raised {e!r}', report.write_replay(nm, dict(case=nm)))
+                        continue
+                    want, cons = expected_terms(cur, axis, order, boundary, idsym, {})
+                    diffs = [tm.ne(got[idx].t, want[idx]) for idx in np.ndindex(*shape)]
+                    nm = f"history[{hist}] order{order}/{boundary}/axis{'xyz'[axis]}/shape{shape}"
+                    cases.append(dict(name=nm, hist=hist, order=order, boundary=boundary, axis=axis, shape=shape))
+                    jobs.append((len(cases) - 1, cons + [tm.bor(diffs)]))
+    res = solver.check_many(jobs, workers=workers, timeout_s=120)
+    for i, c in enumerate(cases):
+        r = res[i]
+        report.record(c['name'], r['verdict'], r['seconds'], sha=r['sha'], group='two-call histories on one instance',
+                      trivial=r.get('trivial', False))
+        if r['verdict'] == 'unknown':
+            report.inconc(c['name'], 'not settled')
+        elif r['verdict'] == 'sat':
+            rp = replay_history(c)
+            if rp['reproduces']:
+                report.violation(c['name'], f"{c['name']}: second result is not the stencil of the current samples "
+                                 f"(float replay: max deviation {rp['worst']:.3g})",
+                                 report.write_replay(c['name'], dict(kind='history', **{k: c[k] for k in c}, replay=rp)))
+            else:
+                report.harness_errors.append(f"history model for {c['name']} does not reproduce: {rp}")
+
+
+def replay_history(c):
+    """the same two-call history on the real operator with float arrays; reference = a fresh instance"""
+    from aurel.finitedifference import FiniteDifference
+    shape, order, boundary, axis = tuple(c['shape']), c['order'], c['boundary'], c['axis']
+    param = {'xmin': 0.0, 'ymin': 0.0, 'zmin': 0.0, 'dx': 0.5, 'dy': 0.25, 'dz': 2.0,
+             'Nx': shape[0], 'Ny': shape[1], 'Nz': shape[2]}
+    rng = np.random.default_rng(7)
+    a, b = rng.normal(size=shape), rng.normal(size=shape)
+    fd = FiniteDifference(param, boundary=boundary, fd_order=order, verbose=False)
+    ops = [fd.d3x, fd.d3y, fd.d3z]
+    if c['hist'] == 'in-place update':
+        f = a.copy()
+        ops[axis](f)
+        f[...] = b
+        got, cur = ops[axis](f), b
+    elif c['hist'] == 'other array':
+        ops[axis](a)
+        got, cur = ops[axis](b), b
+    else:
+        try:
+            ops[(axis + 1) % 3](a)
+        except (IndexError, ValueError):
+            pass
+        got, cur = ops[axis](a), a
+    fresh = FiniteDifference(param, boundary=boundary, fd_order=order, verbose=False)
+    ref = [fresh.d3x, fresh.d3y, fresh.d3z][axis](cur.copy())
+    worst = float(np.max(np.abs(np.asarray(got, dtype=float) - ref)))
+    return dict(worst=worst, reproduces=worst > 1e-9)
+
+
+def dtype_cases(report, tier):
+    """The solver result is about the arithmetic on the samples; which *storage type* the real operator computes in
+    is invisible on object arrays.  Concrete conformance layer: integer-valued and single-precision input arrays
+    give the result of their float64 copies (int: to round-off; float32: to single precision)."""
+    from aurel.finitedifference import FiniteDifference
+    rng = np.random.default_rng(3)
+    n_run = 0
+    for order in (2, 4, 6, 8):
+        for boundary in BOUNDARIES:
+            N = min_size(order, boundary) + 2
+            for axis in range(3):
+                shape = shape_for(axis, N)
+                param = {'xmin': 0.0, 'ymin': 0.0, 'zmin': 0.0, 'dx': 0.5, 'dy': 0.25, 'dz': 2.0,
+                         'Nx': shape[0], 'Ny': shape[1], 'Nz': shape[2]}
+                fd = FiniteDifference(param, boundary=boundary, fd_order=order, verbose=False)
+                op = [fd.d3x, fd.d3y, fd.d3z][axis]
+                base = rng.integers(-9, 10, size=shape)
+                ref = np.asarray(op(base.astype(np.float64)), dtype=np.float64)
+                scale = max(1.0, float(np.max(np.abs(ref))))
+                for dt, tol in ((np.int64, 1e-12), (np.int32, 1e-12), (np.float32, 1e-5), (np.float64, 0.0)):
+                    arr = base.astype(dt)
+                    for layout in ('C', 'F'):
+                        inp = np.asfortranarray(arr) if layout == 'F' else arr
+                        keep = inp.copy()
+                        nm = f"dtype {np.dtype(dt).name}/{layout} order{order}/{boundary}/axis{'xyz'[axis]}"
+                        n_run += 1
+                        try:
+                            got = np.asarray(op(inp), dtype=np.float64)
+                        except Exception as e:  # noqa
+                            report.record(nm, 'sat', group='dtype conformance (concrete executions)', kind='concrete')
+                            report.violation(f'dtype {np.dtype(dt).name}', f'{nm}: raised {e!r}',
+                                             report.write_replay(nm, dict(kind='dtype', case=nm)))
+                            continue
+                        dev = float(np.max(np.abs(got - ref))) if got.shape == ref.shape else float('inf')
+                        if dev > tol * scale or not np.array_equal(inp, keep):
+                            report.record(nm, 'sat', group='dtype conformance (concrete executions)', kind='concrete')
+                            report.violation(f'dtype {np.dtype(dt).name}',
+                                             f'{nm}: result differs from that of the float64 copy by {dev:.3g}'
+                                             + ('' if np.array_equal(inp, keep) else ' / input modified'),
+                                             report.write_replay(nm, dict(kind='dtype', case=nm, dev=dev)))
+    report.record(f'{n_run} real-operator runs on int64 / int32 / float32 / float64 arrays, C and Fortran order', 'holds',
+                  group='dtype conformance (concrete executions)', kind='concrete', trivial=True)
+
+
 def uniqueness(report, order):
     """The moment equations determine the weights uniquely (so 'the standard weights' is well defined)."""
     for kind, offs in (('forward', list(range(0, order + 1))), ('centred', list(range(-order // 2, order // 2 + 1))),
@@ -251,6 +382,9 @@ def main(report, tier, seed, workers, calibrate=False):
                          N='minimum supported size .. minimum+2 (quick) / .. 2p+6 (thorough), plus every N '
                            'below the minimum down to 1 (must raise)',
                          tensor_leading_dims='2 per index, ranks 1..3',
+                         histories='two calls on one instance (in-place update of the same array object, another array, '
+                                   'another axis first): order 4 (quick) / all orders (thorough)',
+                         dtypes='int64, int32, float32, float64 inputs in C and Fortran order (concrete conformance layer)',
                          outside=['float round-off of the weighted sum', 'N beyond the listed range (no new code '
                                   'path: the splice has three regions whose widths depend on p only) - stated, '
                                   'not proved'])
@@ -299,6 +433,8 @@ def main(report, tier, seed, workers, calibrate=False):
                     else:
                         report.harness_errors.append(f"model for {c['name']} does not reproduce: {rp}")
             tensor_cases(report)
+            history_cases(report, tier, workers)
+    dtype_cases(report, tier)
     report.extra['source_sha1'] = source_digest(FILES)
     # sensitivity witness: a perturbed weight must be detected
     c = cases[len(cases) // 2]
@@ -314,6 +450,13 @@ def main(report, tier, seed, workers, calibrate=False):
 
 def replay_payload(payload):
     from fractions import Fraction
+    if payload.get('kind') == 'history':
+        rp = replay_history(payload)
+        print(rp)
+        return 1 if rp['reproduces'] else 0
+    if payload.get('kind') == 'dtype':
+        print('re-run ./check C07: the dtype layer is a concrete execution of the real operator')
+        return 1
     case = dict(shape=tuple(payload['shape']), order=payload['order'], boundary=payload['boundary'],
                 axis=payload['axis'], idname=payload['idname'])
     model = {k: Fraction(v) for k, v in payload['model'].items()}
